@@ -391,7 +391,7 @@ def text_reader(F):
         for (bb, d, taken, vals) in p.conds:
             e = n(d)
             truth = (taken == "otherwise") if vals == [0] else (bool(taken) if taken != "otherwise" else None)
-            nm = S.variant(d, taken) if taken != "otherwise" else None
+            nm = S.variant_taken(d, taken, vals)
             if e == ("discr", P(2)):
                 rec["requested"] = nm  # None / Some
             elif e == ("discr", ("field", ("variant", P(2), "Some"), 0)):
